@@ -292,9 +292,11 @@ fn run_a(ops: &[AOp], obs: &mut Obs) -> Result<(), Violation> {
                         if me.act.no_loop && fired_rules.contains(&a.rule_name) {
                             return Err(viol("noloop.once", site, "no-loop-rule-returned-again", format!("{} is no-loop and was already marked fired since the last reset, yet it was returned again", a.rule_name), step));
                         }
-                        if let Some(gr) = &a.activation_group {
-                            if fired_groups.contains(gr) {
-                                return Err(viol("actgroup.one", site, "second-rule-of-activation-group-returned", format!("{} belongs to activation group {gr}, of which a rule was already marked fired", a.rule_name), step));
+                        // (the group the CLIENT gave the activation — what the agenda made of that field is its business)
+                        if me.act.activation_group > 0 {
+                            let gr = agname(me.act.activation_group);
+                            if fired_groups.contains(&gr) {
+                                return Err(viol("actgroup.one", site, "second-rule-of-activation-group-returned", format!("{} belongs to activation group {gr:?}, of which a rule was already marked fired", a.rule_name), step));
                             }
                         }
                         // ordering against everything certainly eligible that is still pending
@@ -365,8 +367,8 @@ fn run_a(ops: &[AOp], obs: &mut Obs) -> Result<(), Violation> {
                         if *mark {
                             ag.mark_rule_fired(&a);
                             fired_rules.insert(a.rule_name.clone());
-                            if let Some(gr) = &a.activation_group {
-                                fired_groups.insert(gr.clone());
+                            if me.act.activation_group > 0 {
+                                fired_groups.insert(agname(me.act.activation_group));
                             }
                             if a.lock_on_active {
                                 locked.insert(a.agenda_group.clone());
